@@ -373,8 +373,8 @@ class _EnterOps:
     """enter_context for a manager that is async (has __aexit__) or sync (AttributeError on
     __aexit__), whose enter succeeds or raises."""
 
-    def __init__(self, cm: str, is_async: bool, enter_ok: bool):
-        self.cm, self.is_async, self.enter_ok = cm, is_async, enter_ok
+    def __init__(self, cm: str, is_async: bool, enter_ok: bool, has_exit: bool = True):
+        self.cm, self.is_async, self.enter_ok, self.has_exit = cm, is_async, enter_ok, has_exit
 
     def attr(self, value, name, node, env):
         if value == "CM":
@@ -397,6 +397,9 @@ class _EnterOps:
     def raises(self, node, env):
         if node.kind == "attr" and isinstance(node.ast, ast.Attribute) and node.ast.attr in ("__aexit__", "__aenter__") \
                 and not self.is_async and isinstance(node.ast.value, ast.Name) and env.get(node.ast.value.id) == "CM":
+            return ("new", "AttributeError")
+        if node.kind == "attr" and isinstance(node.ast, ast.Attribute) and node.ast.attr == "__exit__" and not self.has_exit \
+                and isinstance(node.ast.value, ast.Name) and env.get(node.ast.value.id) == "CM":
             return ("new", "AttributeError")
         if self._is_enter(node) and not self.enter_ok:
             return ("new", "EnterError")
@@ -454,6 +457,17 @@ def r14_4(ctx) -> None:
                     what = "the enter's exception propagates and nothing is registered (a manager whose enter failed is not exited)"
                 table[cell] = f"{oc.terminal.kind}; entered={entered}; registered={[r[0] for r in regs]}"
                 ctx.check(ok, "R14.4", u, "enter_context", f"[{cell}] {what}", witness=table[cell] + f"; returned={oc.returned}; raised={oc.raised}")
+    # a synchronous object that can be entered but has no __exit__: the protocol is incomplete, so it
+    # must not be entered at all (the stdlib looks up both methods before calling __enter__)
+    ctx.count("enter_context_cells")
+    ops = _EnterOps(cm, False, True, has_exit=False)
+    outs = Machine(cfg, ops, resolver=make_resolver(ctx, u, ops, skip=("awaitify",))).run({me: "SELF", cm: "CM"})
+    for oc in outs:
+        entered, regs = oc.env.get("@entered", ()), oc.env.get("@registered", ())
+        ok = oc.terminal.kind == "raise_exit" and not entered and not regs
+        table["sync object without __exit__"] = f"{oc.terminal.kind}; entered={entered}; registered={len(regs)}"
+        ctx.check(ok, "R14.4", u, "enter_context", "[sync object without __exit__] it is rejected before being entered "
+                  "(nothing could ever exit it)", witness=table["sync object without __exit__"])
     ctx.tables["enter_context"] = table
 
 
